@@ -146,6 +146,21 @@ func Value(t *sim.Tape, c Codec, links []string, budget *int, depth int) *model.
 		}
 		return v
 	default:
+		if c.JSON && c.Links && t.Pct(6, "map.nearmiss") {
+			// near misses of dag-json's reserved forms: ordinary data that a decoder's lookahead must hand back
+			switch t.Choice(5, "map.nearmiss.kind") {
+			case 0:
+				return model.MapV().Put("/", model.MapV().Put("bytes", model.StringV("YWJj")).Put("z", model.IntV(1)))
+			case 1:
+				return model.MapV().Put("/", model.MapV().Put("bytes", model.IntV(5)))
+			case 2:
+				return model.MapV().Put("/", model.MapV().Put("bytes", model.StringV("YWJj"))).Put("z", model.BoolV(true))
+			case 3:
+				return model.MapV().Put("/", model.IntV(7))
+			default:
+				return model.MapV().Put("/", model.MapV().Put("bytes", model.StringV("YWJj")).Put("bytes2", model.NullV())).Put("a", model.StringV("after"))
+			}
+		}
 		v := &model.V{K: model.Map}
 		n := t.Choice(7, "map.len")
 		seen := map[string]bool{}
